@@ -88,9 +88,6 @@ def _register():
         F = [f"approximate_conditional.HeteroscedasticConditional.{m}" for m in ("__post_init__", "linear_layer", "get_conditional_cov", "condition_on_x")] + \
             [f"approximate_conditional.{cls}.link_function", "conditional.ConditionalGaussianPDF.get_conditional_mu"]
         REG.ob(f"{cls}.condition_on_x/Da=Dy", sorts=["Dy", "Dx", "N"], funcs=F, order={("Dy", "Dy"): False},
-               skip_clauses=(["p(y|x)/wf/Sigma*Lambda=I", "p(y|x)/wf/mu=Sigma*nu"] if kind == "relu" else []),
-               note=("rectified-linear link: the rational identity with denominator 1 + h*[h>=0] (a sum with an inner contraction) is "
-                     "outside the kernel's oriented rule; Sigma*Lambda=I and mu=Sigma*nu are not covered for this link" if kind == "relu" else ""),
                lemmas=["GtvLemmas.det_gram_diag", "GtvLemmas.transpose_mul_inv_gram_mul", "GtvLemmas.det_inv_of_mul_eq_one"])(_mk_cond(kind, "square"))
         REG.ob(f"{cls}.condition_on_x/Da>Dy", sorts=["Dy", "Dx", "Dk", "Dr", "N"], funcs=F,
                order={("Dy", "Dk+Dr"): False, ("Dk", "Dk+Dr"): False},
@@ -204,6 +201,8 @@ def _mk_assembled(kind):
     lax.while_loop contract)."""
     def ob(w):
         xp = w.xp
+        if kind == "relu":
+            w.literal_arange = True
         obj, par = gen_hetero(w, kind, "square")
         p_x, px = SP.gen_pdf(w, "x", "N", "Dx")
         y = w.arr("y", "N", "Dy")
@@ -320,3 +319,95 @@ for _kind in ("exp", "coshm1"):
            axioms=G6, order={("Dy", "Dy"): False})(_mk_kfunc(_kind))
     REG.ob(f"{_cls}._lower_bound_integrals", sorts=["N", "Dx", "Dy"], funcs=[f"approximate_conditional.{_cls}._lower_bound_integrals"],
            axioms=G6, lemmas=["GtvLemmas.det_rank_one_update"], order={("Dy", "Dy"): False})(_mk_lb_integrals(_kind))
+
+
+# ------------------------------------------------------------------ (b) rectified-linear link: building blocks of its lower bound
+G6R = ["G6 (ReLU): for h, w >= 0  ln(1+h) <= ln(1+w) + (h-w)/(1+w)  (concavity) and  h/(1+h) >= h exp(-ln(1+w) - (h-w)/(1+w))",
+       "G1 Gaussian integral", "G3 conditional law of a jointly Gaussian pair", "G4 truncated Gaussian integrals"]
+
+
+def _half_line_moments(w, m, s2, kmax):
+    """H_k = int_0^inf h^k N(h; m, s2) dh, k = 0..kmax:  H_0 = Phi(m/s), H_1 = m H_0 + s phi(m/s),
+    H_k = m H_{k-1} + (k-1) s2 H_{k-2}  (integration by parts; the boundary term vanishes at 0 for k >= 2)"""
+    xp = w.xp
+    s = xp.sqrt(s2)
+    al = -m / s
+    H = [1.0 - w.Phi(al)]
+    H.append(m * H[0] + s * w.phi(al))
+    for k in range(2, kmax + 1):
+        H.append(m * H[k - 1] + (k - 1) * s2 * H[k - 2])
+    return H
+
+
+def _mk_relu_kfunc():
+    def ob(w):
+        xp = w.xp
+        w.literal_arange = True
+        obj, par = gen_hetero(w, "relu", "square")
+        p_x, px = SP.gen_pdf(w, "x", "N", "Dx")
+        W_i, w0, wv = _row(w, "wi")
+        om = w.pos("om", "N")
+        m = xp.einsum("i,ni->n", wv, px["mu"]) + w0
+        s2 = xp.einsum("i,nij,j->n", wv, px["S"], wv)
+        H = _half_line_moments(w, m, s2, 1)
+        w.equal("omega_dagger=E[relu(h)]", obj._get_omega_dagger(p_x, W_i), H[1])
+        val = obj.k_func(p_x, W_i, om)                                     # REAL
+        spec = H[0] * xp.log(1.0 + om) + (H[1] - H[0] * om) / (1.0 + om)
+        w.equal("k_func=E[1[h>=0] (ln(1+w) + (h-w)/(1+w))]", val, spec)
+    return ob
+
+
+def _mk_relu_lb_integrals(fourth):
+    def ob(w):
+        xp = w.xp
+        w.literal_arange = True
+        obj, par = gen_hetero(w, "relu", "square")
+        p_x, px = SP.gen_pdf(w, "x", "N", "Dx")
+        y = w.arr("y", "N", "Dy")
+        W_i, w0, wv = _row(w, "wi")
+        a_i = w.arr("ai", "Dy")
+        om = w.pos("om", "N")
+        if fourth:
+            cub, quart = obj._lower_bound_integrals(p_x=p_x, y=y, W_i=W_i, a_i=a_i, omega_star=om, compute_fourth_order=True)   # REAL
+        else:
+            cub = obj._lower_bound_integrals(p_x, y, W_i, a_i, om)        # REAL  [1, N]
+        M, b = par["M"][0], par["b"][0]
+        mu, Sx = px["mu"], px["S"]
+        r0 = y - b[None] - xp.einsum("ij,nj->ni", M, mu)
+        eg = xp.einsum("d,nd->n", a_i, r0)
+        aM = xp.einsum("d,di->i", a_i, M)
+        vg = xp.einsum("i,nij,j->n", aM, Sx, aM)
+        m = xp.einsum("i,ni->n", wv, mu) + w0
+        s2 = xp.einsum("i,nij,j->n", wv, Sx, wv)
+        cgh = -xp.einsum("i,nij,j->n", aM, Sx, wv)
+        c1 = cgh / s2
+        c0 = eg - c1 * m
+        v = vg - cgh ** 2 / s2
+        # surrogate of link/(1+link) on h >= 0:  h * exp(nu h + lb),  nu = -1/(1+w), lb = -ln(1+w) + w/(1+w)
+        nu = -1.0 / (1.0 + om)
+        lb = -xp.log(1.0 + om) + om / (1.0 + om)
+        Z = xp.exp(lb + nu * m + 0.5 * nu ** 2 * s2)                       # N(h; m, s2) e^{nu h + lb} = Z N(h; m + nu s2, s2)
+        H = _half_line_moments(w, m + nu * s2, s2, 4 if fourth else 3)
+        w.equal("cubic=E[1[h>=0] h e^{nu h+lb} g^2]", cub, (Z * (c0 ** 2 * H[1] + 2.0 * c0 * c1 * H[2] + c1 ** 2 * H[3] + v * H[1]))[None])
+        if fourth:
+            w.equal("quartic=E[1[h>=0] h^2 e^{nu h+lb} g^2]", quart,
+                    (Z * (c0 ** 2 * H[2] + 2.0 * c0 * c1 * H[3] + c1 ** 2 * H[4] + v * H[2]))[None])
+    return ob
+
+
+_RC = "HeteroscedasticReLUConditional"
+REG.ob(f"{_RC}.k_func", sorts=["N", "Dx", "Dy"], order={("Dy", "Dy"): False},
+       funcs=[f"approximate_conditional.{_RC}.k_func", f"approximate_conditional.{_RC}._get_omega_dagger", "pdf.GaussianPDF.get_density_of_linear_sum",
+              "experimental.truncated_measure.TruncatedGaussianMeasure.integral", "experimental.truncated_measure.TruncatedGaussianMeasure.integrate_x"],
+       axioms=G6R)(_mk_relu_kfunc())
+for _fourth in (False, True):
+    REG.ob(f"{_RC}._lower_bound_integrals/fourth_order={_fourth}", sorts=["N", "Dx", "Dy"], order={("Dy", "Dy"): False},
+           funcs=[f"approximate_conditional.{_RC}._lower_bound_integrals", "pdf.GaussianPDF.get_density_of_linear_sum", "pdf.GaussianPDF.get_marginal",
+                  "pdf.GaussianPDF.condition_on_explicit", "factor.LinearFactor._hadamard_with_measure",
+                  "experimental.truncated_measure.TruncatedGaussianMeasure.integrate_x_pow_k"],
+           axioms=G6R)(_mk_relu_lb_integrals(_fourth))
+
+# The assembly integrate_log_conditional_y / get_lb_* is the base-class method (HeteroscedasticConditional), proved against its
+# callees' contracts in the exp / cosh-1 obligations above; the ReLU class overrides only the callees (k_func,
+# _lower_bound_integrals, _get_omega_dagger), each under its own obligation here.  (Running the assembly once more through the
+# ReLU callees exceeds the kernel's canonicalisation budget: 18 bound indices in one component.)
